@@ -11,6 +11,14 @@ def main(argv):
     from . import findings
     mod = importlib.import_module(f'lokiverif.props.{prop_id.lower()}')
     known, _ = findings.load(prop_id)
+    # import loki (and hypothesis) before the budget clock starts: on a loaded machine the import alone can
+    # take longer than a quick budget, and a run that explores nothing proves nothing
+    try:
+        import hypothesis  # noqa: F401
+        import loki  # noqa: F401
+        import loki.transformations  # noqa: F401
+    except Exception:  # noqa: a broken tree is reported by the property module itself
+        pass
     ctx = Ctx(prop_id, tier, int(seed), int(shard), int(nshards),
               budget=float(budget) if float(budget) > 0 else None,
               known_sigs=[k['sig'] for k in known])
